@@ -1151,3 +1151,512 @@ Section C17.
     eapply Forall_impl; [|exact Hex]. intros x Hx. apply extra_sem_ok; assumption.
   Qed.
 End C17.
+(** ================= 7. completeness of the formulation (C17 e) ================= *)
+
+(** arrangements are described with item INDICES as contents, so that equal items stay apart *)
+Definition idxval (vs : list Z) (i : nat) : Z := nth i vs 0.
+
+Definition arrangement (vs : list Z) (k : nat) (copies ws : list Z) (ex : list extra) (b : bins nat) : Prop :=
+  length b = k /\ wf (idxval vs) b /\
+  Forall (fun i => (i < length vs)%nat) (contents b) /\
+  (forall i, (i < length vs)%nat -> Z.of_nat (count_occ Nat.eq_dec (contents b) i) = nth i copies 0) /\
+  (forall j, (S j < k)%nat -> nth j (sums b) 0 * wt ws (S j) <= nth (S j) (sums b) 0 * wt ws j) /\
+  Forall (extra_ok ws (sums b)) ex.
+
+(** the assignment that describes an arrangement *)
+Definition occ (i : nat) (bn : bin nat) : Z := Z.of_nat (count_occ Nat.eq_dec (snd bn) i).
+Definition encode (n : nat) (b : bins nat) : list Z := flat_map (fun i => map (occ i) b) (range n).
+
+Lemma ilp_flat_map_length {I T} (f : I -> list T) k (l : list I) : (forall x, length (f x) = k) ->
+  length (flat_map f l) = (length l * k)%nat.
+Proof. intros H. induction l as [|x l IH]; cbn [flat_map length]; [reflexivity|]. rewrite app_length, H, IH. lia. Qed.
+
+Lemma ilp_nth_flat_map {I T} (f : I -> list T) k d x0 : (forall x, length (f x) = k) ->
+  forall (l : list I) i j, (i < length l)%nat -> (j < k)%nat ->
+  nth (i * k + j) (flat_map f l) d = nth j (f (nth i l x0)) d.
+Proof.
+  intros H. induction l as [|x l IH]; intros i j Hi Hj; cbn [length] in Hi; [lia|]. cbn [flat_map].
+  destruct i as [|i].
+  - cbn [Nat.mul Nat.add nth]. apply app_nth1. rewrite H. exact Hj.
+  - rewrite app_nth2 by (rewrite H; lia). rewrite H. cbn [nth].
+    replace (S i * k + j - k)%nat with (i * k + j)%nat by lia. apply IH; lia.
+Qed.
+
+Lemma encode_length n b : length (encode n b) = (n * length b)%nat.
+Proof.
+  unfold encode. rewrite (ilp_flat_map_length _ (length b)) by (intros i; apply map_length).
+  rewrite ilp_range_length. reflexivity.
+Qed.
+
+Lemma encode_cnt n b i j : (i < n)%nat -> (j < length b)%nat ->
+  cnt (encode n b) (length b) i j = occ i (nth j b empty_bin).
+Proof.
+  intros Hi Hj. unfold cnt, var, encode.
+  rewrite (ilp_nth_flat_map _ (length b) 0 O) by (try (intros x; apply map_length); try rewrite ilp_range_length; assumption).
+  rewrite ilp_range_nth by exact Hi.
+  rewrite (nth_indep _ 0 (occ i empty_bin)) by (rewrite map_length; exact Hj). apply map_nth.
+Qed.
+
+Lemma ilp_zsum_map_zero {T} (l : list T) : zsum (map (fun _ => 0) l) = 0.
+Proof. induction l as [|x l IH]; cbn [map]; rewrite ?ilp_zsum_cons; [reflexivity|]. lia. Qed.
+
+Lemma indicator_sum (f : nat -> Z) x m : forall a,
+  zsum (map (fun i => if Nat.eq_dec x i then f i else 0) (range_from a m))
+  = if (a <=? x)%nat && (x <? a + m)%nat then f x else 0.
+Proof.
+  induction m as [|m IH]; intros a; cbn [range_from map].
+  - destruct ((a <=? x)%nat && (x <? a + 0)%nat) eqn:E; [lia|reflexivity].
+  - rewrite ilp_zsum_cons, IH. destruct (Nat.eq_dec x a) as [->|N].
+    + destruct ((S a <=? a)%nat && (a <? S a + m)%nat) eqn:E1; [lia|].
+      destruct ((a <=? a)%nat && (a <? a + S m)%nat) eqn:E2; lia.
+    + destruct ((S a <=? x)%nat && (x <? S a + m)%nat) eqn:E1;
+        destruct ((a <=? x)%nat && (x <? a + S m)%nat) eqn:E2; lia.
+Qed.
+
+(** a sum over a list of indices, regrouped by index *)
+Lemma count_sum (f : nat -> Z) n (l : list nat) : Forall (fun i => (i < n)%nat) l ->
+  zsum (map (fun i => f i * Z.of_nat (count_occ Nat.eq_dec l i)) (range n)) = zsum (map f l).
+Proof.
+  induction 1 as [|x l Hx Hl IH]; cbn [map].
+  - rewrite (ilp_zsum_map_ext _ (fun _ => 0)) by (intros i _; cbn [count_occ]; lia). apply ilp_zsum_map_zero.
+  - rewrite ilp_zsum_cons, <- IH.
+    rewrite (ilp_zsum_map_ext _ (fun i => (if Nat.eq_dec x i then f i else 0) + f i * Z.of_nat (count_occ Nat.eq_dec l i))).
+    + rewrite ilp_zsum_map_add. unfold range. rewrite indicator_sum.
+      destruct ((0 <=? x)%nat && (x <? 0 + n)%nat) eqn:E; lia.
+    + intros i _. cbn [count_occ]. destruct (Nat.eq_dec x i); lia.
+Qed.
+
+Lemma occ_concat i (b : bins nat) :
+  zsum (map (occ i) b) = Z.of_nat (count_occ Nat.eq_dec (contents b) i).
+Proof.
+  induction b as [|bn b IH]; [reflexivity|]. cbn [map]. rewrite ilp_zsum_cons, contents_cons, count_occ_app, IH.
+  unfold occ. lia.
+Qed.
+
+Lemma Forall_contents_nth (P : nat -> Prop) (b : bins nat) j :
+  Forall P (contents b) -> Forall P (snd (nth j b empty_bin)).
+Proof.
+  revert j. induction b as [|bn b IH]; intros j H.
+  - destruct j; cbn [nth empty_bin snd]; constructor.
+  - rewrite contents_cons in H. apply Forall_app in H. destruct H as [H1 H2].
+    destruct j as [|j]; cbn [nth]; [exact H1|apply IH; exact H2].
+Qed.
+
+Lemma wf_nth (vs : list Z) (b : bins nat) j : wf (idxval vs) b ->
+  nth j (sums b) 0 = zsum (map (idxval vs) (snd (nth j b empty_bin))).
+Proof.
+  intros H. revert j. induction H as [|bn b Hb Hw IH]; intros j.
+  - destruct j; reflexivity.
+  - destruct j as [|j]; cbn [sums map nth]; [exact Hb|apply IH].
+Qed.
+
+(** the bin sums of the encoded assignment are the recorded sums of the arrangement *)
+Lemma encode_bsum vs (b : bins nat) j : wf (idxval vs) b ->
+  Forall (fun i => (i < length vs)%nat) (contents b) -> (j < length b)%nat ->
+  bsum vs (encode (length vs) b) (length b) j = nth j (sums b) 0.
+Proof.
+  intros Hw Hc Hj. rewrite (wf_nth vs b j Hw). unfold bsum. rewrite (ilp_enumerate_map vs 0), map_map.
+  rewrite <- (count_sum (idxval vs) (length vs)) by (apply Forall_contents_nth; exact Hc).
+  apply ilp_zsum_map_ext. intros i Hi. apply ilp_range_In in Hi.
+  unfold bterm. cbn [fst snd]. rewrite encode_cnt by assumption. reflexivity.
+Qed.
+
+Lemma encode_row (vs : list Z) (b : bins nat) i : (i < length vs)%nat ->
+  zsum (map (cnt (encode (length vs) b) (length b) i) (range (length b)))
+  = Z.of_nat (count_occ Nat.eq_dec (contents b) i).
+Proof.
+  intros Hi. rewrite <- occ_concat.
+  transitivity (zsum (map (occ i) (map (fun j => nth j b empty_bin) (range (length b))))).
+  2: { rewrite <- (ilp_map_nth_range b empty_bin). reflexivity. }
+  rewrite map_map.
+  apply ilp_zsum_map_ext. intros j Hj. apply ilp_range_In in Hj. apply encode_cnt; assumption.
+Qed.
+
+Lemma extra_ok_sem vs ws asg k x : (1 <= k)%nat -> length ws = k ->
+  extra_ok ws (map (bsum vs asg k) (range k)) x -> extra_sem vs ws asg k x.
+Proof.
+  intros Hk Hl H. destruct x as [c|c|c]; cbn [extra_sem extra_ok] in *.
+  - rewrite (ilp_hd_map_range _ k 0 Hk), ilp_hd_nth in H. exact H.
+  - rewrite (ilp_last_map_range _ k 0 Hk), ilp_last_nth, Hl in H. exact H.
+  - rewrite (ilp_hd_map_range _ k 0 Hk), ilp_hd_nth in H. exact H.
+Qed.
+
+Lemma encode_sums vs (b : bins nat) : wf (idxval vs) b ->
+  Forall (fun i => (i < length vs)%nat) (contents b) ->
+  map (bsum vs (encode (length vs) b) (length b)) (range (length b)) = sums b.
+Proof.
+  intros Hw Hc.
+  transitivity (map (fun j => nth j (sums b) 0) (range (length (sums b)))).
+  2: { symmetry. apply ilp_map_nth_range. }
+  replace (length (sums b)) with (length b) by (unfold sums; rewrite map_length; reflexivity).
+  apply map_ext_in. intros j Hj. apply ilp_range_In in Hj. apply encode_bsum; assumption.
+Qed.
+
+Lemma encode_sem vs k copies ws ex b : ilp_pre k ws -> arrangement vs k copies ws ex b ->
+  sem_feasible vs k copies ws ex (encode (length vs) b).
+Proof.
+  intros (Hk & Hl & Hw) (Lb & Wf & Hc & Hcp & Hasc & Hex). subst k. rewrite <- Lb in *.
+  split; [apply encode_length|]. split; [|split; [|split]].
+  - intros i j Hi Hj. rewrite encode_cnt by assumption. unfold occ. lia.
+  - intros i Hi. rewrite encode_row by exact Hi. apply Hcp. exact Hi.
+  - intros j Hj. rewrite !encode_bsum by (try assumption; lia). apply Hasc. exact Hj.
+  - eapply Forall_impl; [|exact Hex]. intros x Hx. apply extra_ok_sem; [exact Hk|symmetry; exact Lb|].
+    rewrite encode_sums by assumption. exact Hx.
+Qed.
+
+(** (e) every arrangement (k bins of item indices, item i placed copies[i] times, weighted sums
+    ascending, additional constraints satisfied) is the decoding of a feasible assignment, with the
+    same bin sums, hence the same objective value *)
+Theorem feasible_complete : forall vs k copies ws ex (b : bins nat), ilp_pre k ws ->
+  arrangement vs k copies ws ex b ->
+  let asg := encode (length vs) b in
+  feasible_b vs k copies ws ex asg = true /\
+  (forall (A : Type) (valueof : A -> Z) keep (items : list A), map valueof items = vs ->
+     sums (decode valueof keep k items ws asg) = sums b) /\
+  (forall o, (toQ (objective_value vs k ws o asg) == qvalue o (map toQ (combine (sums b) ws)))%Q).
+Proof.
+  intros vs k copies ws ex b P Arr asg.
+  assert (F : feasible_b vs k copies ws ex asg = true) by (apply sem_feasible_b; [exact P|apply encode_sem; assumption]).
+  destruct Arr as (Lb & Wf & Hc & _).
+  assert (Es : map (bsum vs asg k) (range k) = sums b) by (subst k; apply encode_sums; assumption).
+  split; [exact F|]. split.
+  - intros A valueof keep items E. subst vs. rewrite (decode_sums valueof keep items k copies ws ex asg P F). exact Es.
+  - intros o. rewrite (objective_value_wqs vs ws asg k o (pre_wpos k ws P)). unfold wqs.
+    rewrite <- Es. destruct P as (_ & Hl & _). rewrite <- Hl at 3 4.
+    rewrite (ilp_combine_range _ ws 1), map_map, Hl. reflexivity.
+Qed.
+(** ================= 8. optimality, given an optimal solver answer (C17 f) ================= *)
+
+(** what the solver sees: only the formulation *)
+Definition feasible_f (f : nat * linexpr * list constr) (asg : list Z) : bool :=
+  Nat.eqb (length asg) (fst (fst f)) && forallb (satisfies asg) (snd f).
+Definition objective_f (f : nat * linexpr * list constr) (asg : list Z) : rat := eval_expr asg (snd (fst f)).
+
+Lemma feasible_f_formulate vs k copies ws o ex asg :
+  feasible_f (formulate vs k copies ws o ex) asg = feasible_b vs k copies ws ex asg.
+Proof. reflexivity. Qed.
+Lemma objective_f_formulate vs k copies ws o ex asg :
+  objective_f (formulate vs k copies ws o ex) asg = objective_value vs k ws o asg.
+Proof. reflexivity. Qed.
+
+(** status OPTIMAL means: the returned point is feasible and no feasible point has a smaller objective *)
+Definition solver_spec (solve : nat * linexpr * list constr -> option (list Z)) : Prop :=
+  forall f asg, solve f = Some asg ->
+    feasible_f f asg = true /\
+    forall asg', feasible_f f asg' = true -> rleb (objective_f f asg) (objective_f f asg') = true.
+
+Lemma idxval_map vs : map (idxval vs) (range (length vs)) = vs.
+Proof. symmetry. apply (ilp_map_nth_range vs 0). Qed.
+
+Lemma ilp_sorted_nth (l : list Z) : StronglySorted Z.le l ->
+  forall i j, (i <= j)%nat -> (j < length l)%nat -> nth i l 0 <= nth j l 0.
+Proof.
+  induction 1 as [|x l Hs IH Hf]; intros i j Hij Hj; cbn [length] in Hj; [lia|].
+  destruct j as [|j]; [assert (i = O) by lia; subst i; lia|].
+  destruct i as [|i]; cbn [nth].
+  - rewrite Forall_forall in Hf. apply Hf. apply nth_In. lia.
+  - apply IH; lia.
+Qed.
+
+Lemma wt_repeat c k j : (j < k)%nat -> wt (repeat c k) j = c.
+Proof. intros H. unfold wt. apply ilp_nth_repeat. exact H. Qed.
+
+(** the objective with weights all 1, without reference to decoded bins *)
+Lemma objective_unweighted vs k copies ex o asg : (1 <= k)%nat ->
+  feasible_b vs k copies (repeat 1 k) ex asg = true ->
+  0 < snd (objective_value vs k (repeat 1 k) o asg) /\
+  fst (objective_value vs k (repeat 1 k) o asg)
+  = value o (map (bsum vs asg k) (range k)) false * snd (objective_value vs k (repeat 1 k) o asg).
+Proof.
+  intros Hk F. pose proof (pre_repeat 1 k ltac:(lia) Hk) as P.
+  rewrite <- (idxval_map vs) in F.
+  destruct (objective_agrees (idxval vs) false (range (length vs)) k copies 1 ex o asg ltac:(lia) Hk F) as [H1 H2].
+  rewrite (decode_sums (idxval vs) false (range (length vs)) k copies (repeat 1 k) ex asg P F) in H2.
+  rewrite (idxval_map vs) in *. split; [exact H1|lia].
+Qed.
+
+Section Solver.
+  Variable solve : nat * linexpr * list constr -> option (list Z).
+  Hypothesis solve_optimal : solver_spec solve.
+
+  Context {A : Type} (valueof : A -> Z).
+
+  (** (f, general) the decoded answer is optimal among all arrangements: its objective (fast path on
+      the weighted sums, which is their true objective since they are ascending) is the least *)
+  Theorem ilp_optimal_weighted : forall keep items k copies ws ex o asg, ilp_pre k ws ->
+    solve (formulate (map valueof items) k copies ws o ex) = Some asg ->
+    feasible_b (map valueof items) k copies ws ex asg = true /\
+    forall b' : bins nat, arrangement (map valueof items) k copies ws ex b' ->
+      (qvalue o (map toQ (combine (sums (decode valueof keep k items ws asg)) ws))
+       <= qvalue o (map toQ (combine (sums b') ws)))%Q.
+  Proof.
+    intros keep items k copies ws ex o asg P E. destruct (solve_optimal _ _ E) as [F Hmin].
+    rewrite feasible_f_formulate in F. split; [exact F|]. intros b' Arr.
+    destruct (feasible_complete (map valueof items) k copies ws ex b' P Arr) as (F' & _ & Ho').
+    specialize (Hmin _ F'). rewrite !objective_f_formulate in Hmin.
+    apply rleb_Q in Hmin; try (apply objective_value_pos, pre_wpos; exact P).
+    rewrite <- (objective_agrees_weighted valueof keep items k copies ws ex o asg P F).
+    rewrite <- (Ho' o). exact Hmin.
+  Qed.
+
+  Lemma ilp_partition_attainable k items (b : bins A) : is_partition valueof k items b ->
+    Attainable k (map valueof items) (sums b).
+  Proof.
+    intros (Hp & Hl & Hw). destruct (bins_attainable valueof b Hw) as (ps & Hm & Hf & Hr).
+    rewrite Hl in Hf, Hr.
+    apply (Attainable_perm k (map valueof (contents b))); [apply Permutation_map; exact Hp|].
+    apply Attainable_pairs. exists ps. auto.
+  Qed.
+
+  (** every attainable vector of sums is, after sorting the bins, an arrangement for the
+      unweighted one-copy problem without additional constraints *)
+  Lemma attainable_arrangement k vs s : (1 <= k)%nat -> Attainable k vs s ->
+    exists b' : bins nat, arrangement vs k (repeat 1 (length vs)) (repeat 1 k) [] b' /\ Permutation (sums b') s.
+  Proof.
+    intros Hk Hs. rewrite <- (idxval_map vs) in Hs.
+    destruct (attainable_lists (idxval vs) k (range (length vs)) s Hs) as (T & HL & HP & HS).
+    set (b0 := map (fun l => (zsum (map (idxval vs) l), l)) T : bins nat).
+    assert (Hc0 : contents b0 = concat T).
+    { unfold contents, lists, b0. rewrite map_map. cbn [snd]. rewrite map_id. reflexivity. }
+    assert (Hs0 : sums b0 = s).
+    { unfold sums, b0. rewrite map_map. cbn [fst]. exact HS. }
+    assert (Hw0 : wf (idxval vs) b0).
+    { unfold wf, b0. rewrite Forall_map. apply Forall_forall. intros l _. reflexivity. }
+    assert (HPc : Permutation (contents (sort_bins b0)) (range (length vs))).
+    { rewrite sort_bins_contents, Hc0. exact HP. }
+    assert (Ls : length (sort_bins b0) = k).
+    { pose proof (sort_bins_length b0) as L0. unfold b0 in L0 at 2. rewrite map_length, HL in L0. exact L0. }
+    exists (sort_bins b0). split.
+    - split; [exact Ls|].
+      split; [apply sort_bins_wf; exact Hw0|]. split; [|split; [|split]].
+      + eapply Permutation_Forall; [symmetry; exact HPc|]. apply Forall_forall. intros i Hi.
+        apply ilp_range_In. exact Hi.
+      + intros i Hi. rewrite ilp_nth_repeat by exact Hi.
+        assert (ND : NoDup (contents (sort_bins b0))).
+        { eapply Permutation_NoDup; [symmetry; exact HPc|]. apply ilp_range_from_nodup. }
+        rewrite (NoDup_count_occ' Nat.eq_dec) in ND. rewrite ND; [reflexivity|].
+        eapply Permutation_in; [symmetry; exact HPc|]. apply ilp_range_In. exact Hi.
+      + intros j Hj. rewrite !wt_repeat by lia.
+        assert (nth j (sums (sort_bins b0)) 0 <= nth (S j) (sums (sort_bins b0)) 0); [|lia].
+        apply ilp_sorted_nth; [apply sort_bins_sorted|lia|].
+        unfold sums. rewrite map_length. unfold bins, bin in Ls. rewrite Ls. exact Hj.
+      + constructor.
+    - rewrite sort_bins_sums_perm, Hs0. apply Permutation_refl.
+  Qed.
+
+  (** (f, unweighted) weights all 1, one copy of each item, no additional constraints:
+      the decoded answer is a partition in ascending order whose value is THE optimum of the
+      objective over all partitions of the values into k bins *)
+  Theorem ilp_optimal : forall items k o asg, (1 <= k)%nat ->
+    solve (formulate (map valueof items) k (repeat 1 (length items)) (repeat 1 k) o []) = Some asg ->
+    let b := decode valueof true k items (repeat 1 k) asg in
+    is_partition valueof k items b /\ StronglySorted Z.le (sums b) /\
+    Opt o k (map valueof items) (value o (sums b) false).
+  Proof.
+    intros items k o asg Hk E b. pose proof (pre_repeat 1 k ltac:(lia) Hk) as P.
+    destruct (solve_optimal _ _ E) as [F Hmin]. rewrite feasible_f_formulate in F.
+    assert (Part : is_partition valueof k items b) by (apply (decode_is_partition valueof items k _ [] asg P F)).
+    split; [exact Part|]. split; [apply decode_equal_weights_sorted, all_equal_repeat|].
+    pose proof (objective_unweighted _ k _ [] o asg Hk F) as [D1 N1].
+    rewrite <- (decode_sums valueof true items k _ (repeat 1 k) [] asg P F) in N1. fold b in N1.
+    split.
+    - exists (sums b). split; [apply ilp_partition_attainable; exact Part|reflexivity].
+    - intros s Hs. rewrite <- (map_length valueof items) in F, Hmin, E.
+      destruct (attainable_arrangement k (map valueof items) s Hk Hs) as (b' & Arr & Pb').
+      destruct (feasible_complete _ k _ _ [] b' P Arr) as (F' & _ & _).
+      pose proof (Hmin _ F') as Hle. rewrite !objective_f_formulate in Hle.
+      apply rleb_Q in Hle; try (apply objective_value_pos, pre_wpos; exact P).
+      pose proof (objective_unweighted _ k _ [] o _ Hk F') as [D2 N2].
+      destruct Arr as (Lb & Wf & Hc & _).
+      assert (Es : map (bsum (map valueof items) (encode (length (map valueof items)) b') k) (range k) = sums b')
+        by (rewrite <- Lb; apply encode_sums; assumption).
+      rewrite Es in N2.
+      rewrite (value_perm o _ _ Pb') in N2.
+      apply toQ_le in Hle; [|exact D1|exact D2]. rewrite N1, N2 in Hle.
+      set (v1 := value o (sums b) false) in *. set (v2 := value o s false) in *.
+      set (d1 := snd (objective_value (map valueof items) k (repeat 1 k) o asg)) in *.
+      set (d2 := snd (objective_value (map valueof items) k (repeat 1 k) o
+                        (encode (length (map valueof items)) b'))) in *.
+      assert (H3 : v1 * (d1 * d2) <= v2 * (d1 * d2)) by lia.
+      apply Z.mul_le_mono_pos_r in H3; [exact H3|]. apply Z.mul_pos_pos; assumption.
+  Qed.
+
+  (** the same, for the top-level function: if it returns bins, they are an optimal ascending partition *)
+  Corollary ilp_returns_optimal : forall items k o b,
+    ilp valueof true (solve (formulate (map valueof items) k (repeat 1 (length items)) (repeat 1 k) o []))
+        o k items (repeat 1 (length items)) (repeat 1 k) = Ok b ->
+    (1 <= k)%nat ->
+    is_partition valueof k items b /\ StronglySorted Z.le (sums b) /\
+    Opt o k (map valueof items) (value o (sums b) false).
+  Proof.
+    intros items k o b E Hk. unfold ilp in E.
+    destruct (ilp_precheck k (length items) (repeat 1 (length items)) (repeat 1 k) o); [discriminate|].
+    destruct (solve _) as [asg|] eqn:Es; [|discriminate]. inversion E; subst b.
+    apply ilp_optimal; assumption.
+  Qed.
+End Solver.
+
+(** ================= 9. error path and equal weights (C17 g) ================= *)
+
+Theorem non_optimal_raises : forall (A : Type) (valueof : A -> Z) keep k items ws asg,
+  ilp_result valueof keep false k items ws asg = Err ValueError.
+Proof. reflexivity. Qed.
+
+Theorem non_optimal_raises_ilp : forall (A : Type) (valueof : A -> Z) keep o k items copies ws,
+  (exists e, ilp valueof keep None o k items copies ws = Err e) /\
+  (ilp_precheck k (length items) copies ws o = None ->
+   ilp valueof keep None o k items copies ws = Err ValueError).
+Proof.
+  intros A valueof keep o k items copies ws. unfold ilp.
+  destruct (ilp_precheck k (length items) copies ws o) as [e|].
+  - split; [exists e; reflexivity|discriminate].
+  - split; [exists ValueError; reflexivity|reflexivity].
+Qed.
+(** equal weights c: the additional constraints talk about sum / c, so their constants are scaled *)
+Definition scale_extra (c : Z) (x : extra) : extra :=
+  match x with
+  | SmallestEq z => SmallestEq (z * c)
+  | LargestLe z => LargestLe (z * c)
+  | SmallestGe z => SmallestGe (z * c)
+  end.
+
+Lemma ilp_bool_eq (a b : bool) : (a = true <-> b = true) -> a = b.
+Proof. destruct a, b; intros [H1 H2]; try reflexivity; [symmetry; apply H1; reflexivity|apply H2; reflexivity]. Qed.
+
+Lemma sem_feasible_equal_weights vs k copies c ex asg : 0 < c -> (1 <= k)%nat ->
+  (sem_feasible vs k copies (repeat c k) ex asg <->
+   sem_feasible vs k copies (repeat 1 k) (map (scale_extra c) ex) asg).
+Proof.
+  intros Hc Hk. unfold sem_feasible.
+  assert (E1 : (forall j, (S j < k)%nat ->
+                  bsum vs asg k j * wt (repeat c k) (S j) <= bsum vs asg k (S j) * wt (repeat c k) j) <->
+               (forall j, (S j < k)%nat ->
+                  bsum vs asg k j * wt (repeat 1 k) (S j) <= bsum vs asg k (S j) * wt (repeat 1 k) j)).
+  { split; intros H j Hj; specialize (H j Hj); rewrite !wt_repeat in * by lia.
+    - apply Z.mul_le_mono_pos_r in H; [lia|exact Hc].
+    - apply Z.mul_le_mono_pos_r; [exact Hc|lia]. }
+  assert (E2 : Forall (extra_sem vs (repeat c k) asg k) ex <->
+               Forall (extra_sem vs (repeat 1 k) asg k) (map (scale_extra c) ex)).
+  { rewrite Forall_map. split; intros H; (eapply Forall_impl; [|exact H]); intros x Hx;
+      destruct x as [z|z|z]; cbn [scale_extra extra_sem] in *; rewrite !wt_repeat in * by lia; lia. }
+  rewrite E1, E2. reflexivity.
+Qed.
+
+(** (g) equal weights never change the result: same feasible set (with the constants of the
+    additional constraints scaled; identical when there are none), same comparison of objective
+    values between any two assignments (hence the same minimisers), same decoding *)
+Theorem equal_weights_noop : forall vs k copies c o ex, 0 < c -> (1 <= k)%nat ->
+  (forall asg, feasible_b vs k copies (repeat c k) ex asg
+               = feasible_b vs k copies (repeat 1 k) (map (scale_extra c) ex) asg) /\
+  (forall a1 a2, rleb (objective_value vs k (repeat c k) o a1) (objective_value vs k (repeat c k) o a2)
+                 = rleb (objective_value vs k (repeat 1 k) o a1) (objective_value vs k (repeat 1 k) o a2)) /\
+  (forall (A : Type) (valueof : A -> Z) keep (items : list A) asg,
+     decode valueof keep k items (repeat c k) asg = decode valueof keep k items (repeat 1 k) asg).
+Proof.
+  intros vs k copies c o ex Hc Hk.
+  pose proof (pre_repeat c k Hc Hk) as Pc. pose proof (pre_repeat 1 k ltac:(lia) Hk) as P1.
+  split; [|split].
+  - intros asg. apply ilp_bool_eq.
+    rewrite (feasible_iff vs k copies (repeat c k) ex asg Hk (pre_wpos _ _ Pc)).
+    rewrite (feasible_iff vs k copies (repeat 1 k) _ asg Hk (pre_wpos _ _ P1)).
+    apply sem_feasible_equal_weights; assumption.
+  - intros a1 a2. apply ilp_bool_eq.
+    rewrite !rleb_Q by (apply objective_value_pos, pre_wpos; assumption).
+    rewrite !objective_value_wqs by (apply pre_wpos; assumption).
+    rewrite !wqs_repeat, !qvalue_mkq. unfold mkq.
+    rewrite !toQ_le by (unfold rpos; cbn [snd]; lia). cbn [fst snd].
+    split; intros H.
+    + apply Z.mul_le_mono_pos_r in H; [lia|exact Hc].
+    + apply Z.mul_le_mono_pos_r; [exact Hc|lia].
+  - intros A valueof keep items asg. unfold decode. rewrite !all_equal_repeat. reflexivity.
+Qed.
+
+Corollary equal_weights_noop_no_extras : forall vs k copies c asg, 0 < c -> (1 <= k)%nat ->
+  feasible_b vs k copies (repeat c k) [] asg = feasible_b vs k copies (repeat 1 k) [] asg.
+Proof. intros vs k copies c asg Hc Hk. apply (equal_weights_noop vs k copies c MinDiff [] Hc Hk). Qed.
+
+(** ================= 10. examples ================= *)
+
+Example ex_formulate :
+  formulate [11; 11; 11; 11; 22] 2 [1; 1; 1; 1; 1] [1; 1] MaxSmallest []
+  = (10%nat,
+     ([(0%nat, (-11, 1)); (2%nat, (-11, 1)); (4%nat, (-11, 1)); (6%nat, (-11, 1)); (8%nat, (-22, 1))], (0, 1)),
+     [([(0%nat, (1, 1))], (0, 1), SGe); ([(2%nat, (1, 1))], (0, 1), SGe); ([(4%nat, (1, 1))], (0, 1), SGe);
+      ([(6%nat, (1, 1))], (0, 1), SGe); ([(8%nat, (1, 1))], (0, 1), SGe); ([(1%nat, (1, 1))], (0, 1), SGe);
+      ([(3%nat, (1, 1))], (0, 1), SGe); ([(5%nat, (1, 1))], (0, 1), SGe); ([(7%nat, (1, 1))], (0, 1), SGe);
+      ([(9%nat, (1, 1))], (0, 1), SGe);
+      ([(0%nat, (1, 1)); (1%nat, (1, 1))], (-1, 1), SEq); ([(2%nat, (1, 1)); (3%nat, (1, 1))], (-1, 1), SEq);
+      ([(4%nat, (1, 1)); (5%nat, (1, 1))], (-1, 1), SEq); ([(6%nat, (1, 1)); (7%nat, (1, 1))], (-1, 1), SEq);
+      ([(8%nat, (1, 1)); (9%nat, (1, 1))], (-1, 1), SEq);
+      ([(1%nat, (11, 1)); (3%nat, (11, 1)); (5%nat, (11, 1)); (7%nat, (11, 1)); (9%nat, (22, 1));
+        (0%nat, (-11, 1)); (2%nat, (-11, 1)); (4%nat, (-11, 1)); (6%nat, (-11, 1)); (8%nat, (-22, 1))], (0, 1), SGe)]).
+Proof. vm_compute. reflexivity. Qed.
+
+(** the answer CBC returned in the validation run, and its decoding (sums 33, 33) *)
+Example ex_feasible :
+  feasible_b [11; 11; 11; 11; 22] 2 [1; 1; 1; 1; 1] [1; 1] [] [0; 1; 0; 1; 0; 1; 1; 0; 1; 0] = true.
+Proof. vm_compute. reflexivity. Qed.
+Example ex_objective :
+  objective_value [11; 11; 11; 11; 22] 2 [1; 1] MaxSmallest [0; 1; 0; 1; 0; 1; 1; 0; 1; 0] = (-33, 1).
+Proof. vm_compute. reflexivity. Qed.
+Example ex_decode :
+  decode (fun x : Z => x) true 2 [11; 11; 11; 11; 22] [1; 1] [0; 1; 0; 1; 0; 1; 1; 0; 1; 0]
+  = [(33, [11; 22]); (33, [11; 11; 11])].
+Proof. vm_compute. reflexivity. Qed.
+(** an infeasible point: bin sums 55, 11 are not ascending *)
+Example ex_infeasible :
+  feasible_b [11; 11; 11; 11; 22] 2 [1; 1; 1; 1; 1] [1; 1] [] [1; 0; 1; 0; 1; 0; 0; 1; 1; 0] = false.
+Proof. vm_compute. reflexivity. Qed.
+
+(** weights [2; 1]: coefficients value/2 in bin 0; the optimum has sums 44, 22 (weighted 22, 22);
+    the bins are NOT sorted by sum: bin 0 stays the bin of weight 2 *)
+Example ex_weighted_formulate_objective :
+  snd (fst (normalize (formulate [11; 11; 11; 11; 22] 2 [1; 1; 1; 1; 1] [2; 1] MaxSmallest [])))
+  = ([(0%nat, (-11, 2)); (2%nat, (-11, 2)); (4%nat, (-11, 2)); (6%nat, (-11, 2)); (8%nat, (-22, 2))], (0, 1)).
+Proof. vm_compute. reflexivity. Qed.
+Example ex_weighted_asc_constraint :
+  nth 15 (snd (normalize (formulate [11; 11; 11; 11; 22] 2 [1; 1; 1; 1; 1] [2; 1] MaxSmallest []))) (lzero, SEq)
+  = ([(0%nat, (-11, 2)); (1%nat, (11, 1)); (2%nat, (-11, 2)); (3%nat, (11, 1)); (4%nat, (-11, 2));
+      (5%nat, (11, 1)); (6%nat, (-11, 2)); (7%nat, (11, 1)); (8%nat, (-22, 2)); (9%nat, (22, 1))], (0, 1), SGe).
+Proof. vm_compute. reflexivity. Qed.
+Example ex_weighted_feasible :
+  feasible_b [11; 11; 11; 11; 22] 2 [1; 1; 1; 1; 1] [2; 1] [] [1; 0; 1; 0; 1; 0; 1; 0; 0; 1] = true.
+Proof. vm_compute. reflexivity. Qed.
+Example ex_weighted_decode :
+  decode (fun x : Z => x) true 2 [11; 11; 11; 11; 22] [2; 1] [1; 0; 1; 0; 1; 0; 1; 0; 0; 1]
+  = [(44, [11; 11; 11; 11]); (22, [22])].
+Proof. vm_compute. reflexivity. Qed.
+Example ex_weighted_objective :
+  reqb (objective_value [11; 11; 11; 11; 22] 2 [2; 1] MaxSmallest [1; 0; 1; 0; 1; 0; 1; 0; 0; 1]) (-22, 1) = true.
+Proof. vm_compute. reflexivity. Qed.
+(** additional constraint sums[-1] <= 3 on weighted sums (weights [1; 3]): 9/3 <= 3 holds, <= 2 does not *)
+Example ex_extra :
+  feasible_b [1; 2; 3] 2 [2; 2; 2] [1; 3] [LargestLe 3] [0; 2; 0; 2; 1; 1] = true /\
+  feasible_b [1; 2; 3] 2 [2; 2; 2] [1; 3] [LargestLe 2] [0; 2; 0; 2; 1; 1] = false.
+Proof. split; vm_compute; reflexivity. Qed.
+(** errors raised before the solver is called *)
+Example ex_errors :
+  ilp (fun x : Z => x) true (Some []) MaxSmallest 2 [] [] [1; 1] = Err OtherError /\
+  ilp (fun x : Z => x) true (Some []) MinLargest 0 [1; 2] [1; 1] [] = Err IndexError /\
+  ilp (fun x : Z => x) true (Some []) (MaxKSmallest 0) 2 [1; 2] [1; 1] [1; 1] = Err OtherError /\
+  ilp (fun x : Z => x) true (Some []) MinDiff 2 [1; 2] [1; 1] [0; 1] = Err ZeroDivisionError /\
+  ilp (fun x : Z => x) true (Some []) MinDiff 2 [1; 2] [1; 1] [1] = Err IndexError /\
+  ilp (fun x : Z => x) true None MinDiff 2 [1; 2] [1; 1] [1; 1] = Err ValueError.
+Proof. repeat split. Qed.
+
+Print Assumptions feasible_iff.
+Print Assumptions decode_copies.
+Print Assumptions decode_is_partition.
+Print Assumptions decode_weighted_ascending.
+Print Assumptions decode_equal_weights_sorted.
+Print Assumptions decode_keeps_weight_positions.
+Print Assumptions objective_agrees_weighted.
+Print Assumptions objective_agrees.
+Print Assumptions extras_hold.
+Print Assumptions feasible_complete.
+Print Assumptions ilp_optimal_weighted.
+Print Assumptions ilp_optimal.
+Print Assumptions ilp_returns_optimal.
+Print Assumptions non_optimal_raises.
+Print Assumptions non_optimal_raises_ilp.
+Print Assumptions equal_weights_noop.
